@@ -8,7 +8,8 @@ use std::sync::{Arc, LazyLock, RwLock};
 use annotate_snippets::{AnnotationKind, Level, Renderer, Snippet};
 
 thread_local! {
-    static PLAIN_OUTPUT: std::cell::Cell<bool> = const { std::cell::Cell::new(false) };
+    // Number of live `PlainOutputGuard`s on this thread.
+    static PLAIN_OUTPUT: std::cell::Cell<u32> = const { std::cell::Cell::new(0) };
 }
 
 /// RAII guard that forces plain (non-colored) `ErrorReport` output on the current thread.
@@ -26,14 +27,14 @@ impl Default for PlainOutputGuard {
 
 impl PlainOutputGuard {
     pub fn new() -> Self {
-        PLAIN_OUTPUT.with(|c| c.set(true));
+        PLAIN_OUTPUT.with(|c| c.set(c.get().saturating_add(1)));
         PlainOutputGuard
     }
 }
 
 impl Drop for PlainOutputGuard {
     fn drop(&mut self) {
-        PLAIN_OUTPUT.with(|c| c.set(false));
+        PLAIN_OUTPUT.with(|c| c.set(c.get().saturating_sub(1)));
     }
 }
 
@@ -353,7 +354,7 @@ impl fmt::Display for ErrorReport {
         // Pre-compute labels so their lifetimes outlive the report construction.
         let labels: Vec<String> = self.errors.iter().map(error_label).collect();
 
-        let renderer = if PLAIN_OUTPUT.with(|c| c.get())
+        let renderer = if PLAIN_OUTPUT.with(|c| c.get()) > 0
             || std::env::var_os("NO_COLOR").is_some()
             || !std::io::IsTerminal::is_terminal(&std::io::stderr())
         {
@@ -555,7 +556,7 @@ pub mod verif {
     }
 
     pub fn plain_output_flag() -> bool {
-        PLAIN_OUTPUT.with(|c| c.get())
+        PLAIN_OUTPUT.with(|c| c.get()) > 0
     }
 
     pub fn report_paths(report: &ErrorReport) -> (PathBuf, String) {
